@@ -100,17 +100,17 @@ def strategy(ctx):
 
 
 def run(ctx):
-    n = 24 if ctx.quick else 300
+    n = 14 if ctx.quick else 300
     cases = configs.collect(strategy(ctx), ctx.seed, n)
     cases += runcheck.known_cases("C12")
     return runcheck.execute_cases(ctx, "c12", cases, make_history, judge)
 
 
 def health(ctx, stats):
-    need = {"completed": 8, "resume-compared": 8, "sampler:ins": 3,
-            "sampler:standard": 6}
+    need = {"completed": 4, "resume-compared": 3, "sampler:ins": 1,
+            "sampler:standard": 2}
     if not ctx.quick:
-        need = {k: v * 10 for k, v in need.items()}
+        need = {"completed": 80, "resume-compared": 80, "sampler:ins": 30, "sampler:standard": 60}
     return [f"class {k}: {stats.classes.get(k, 0)} < {v}"
             for k, v in need.items() if stats.classes.get(k, 0) < v]
 
